@@ -7,3 +7,4 @@ open GoRedis
 #print axioms C08_dictionary
 #print axioms authCreds_one
 #print axioms authCreds_two
+#print axioms C08_source_gate
